@@ -131,7 +131,8 @@ Section SVDExt.
     Forall (fun B => dsvd_ok F B (dsvd B)) (block_svd_calls A q0 q1) ->
     let S := block_svd_spectrum F dsvd A q0 q1 in
     frob A A = emb (sqsum S) /\
-    forall u s v q, block_svd dsvd pick A q0 q1 tol = Some (u, s, v, q) -> mulmx (adjmx u) A = srows s v.
+    forall u s v q, block_svd dsvd pick A q0 q1 tol = Some (u, s, v, q) ->
+      mulmx (adjmx u) A = srows s v /\ mulmx A (adjmx v) = scalecols F u s.
   Proof.
     intros dsvd pick A q0 q1 tol Hv Hnz Hcalls S.
     destruct (valid_in_spec CF A q0 q1 Hv) as (HwfA & Hl0 & Hl1 & HspA).
@@ -207,7 +208,8 @@ Section SVDExt.
       assert (Gv : forall a j, a < length K -> j < nc A -> get (colsel i1 (rowsel K (bV st))) a j = V' (nth a K 0) j).
       { intros a j Ha Hj. unfold V'. rewrite !get_colsel by (unfold rowsel; rewrite ?nr_tab; try lia; rewrite HnrV; apply Klt; exact Ha).
         apply get_rowsel; [exact Ha|rewrite HncV; apply Hi1lt; exact Hj]. }
-      apply mx_ext; [apply wf_mulmx|apply wf_srows| | |].
+      split.
+      { apply mx_ext; [apply wf_mulmx|apply wf_srows| | |].
       + rewrite nr_mulmx, nr_adjmx, nr_srows. unfold rowsel, colsel. rewrite ?nr_tab, ?nc_tab. reflexivity.
       + rewrite nc_mulmx, nc_srows. unfold rowsel, colsel. rewrite ?nr_tab, ?nc_tab. lia.
       + rewrite nr_mulmx, nc_mulmx, nr_adjmx.
@@ -227,6 +229,26 @@ Section SVDExt.
           transitivity (sumn D (fun c => (if Nat.eqb c (nth a K 0) then cI else cO) *! (wt CF F emb S c *! V' c j))).
           { apply sumn_ext. intros c Hc. rewrite (Nat.eqb_sym (nth a K 0) c). reflexivity. }
           rewrite (sumn_delta_l CF D (nth a K 0) (fun c => wt CF F emb S c *! V' c j)) by (apply Klt; exact Ha).
+          rewrite (wt_cof F) by (rewrite HlenS; apply Klt; exact Ha).
+          rewrite (nth_map_lt _ _ _ 0) by exact Ha. reflexivity. }
+      (* A v^H = u diag(s) *)
+      apply mx_ext; [apply wf_mulmx|apply wf_tab| | |].
+      + rewrite nr_mulmx, nr_scalecols. unfold rowsel, colsel. rewrite ?nr_tab, ?nc_tab. lia.
+      + rewrite nc_mulmx, nc_adjmx, nc_scalecols. unfold rowsel, colsel. rewrite ?nr_tab, ?nc_tab. reflexivity.
+      + rewrite nr_mulmx, nc_mulmx, nc_adjmx.
+        replace (nr (colsel i1 (rowsel K (bV st)))) with (length K) by reflexivity.
+        intros i a Hi Ha.
+        rewrite get_mulmx by (rewrite ?nc_adjmx; try exact Hi; exact Ha).
+        unfold scalecols. rewrite get_tab by (unfold rowsel, colsel; rewrite ?nr_tab, ?nc_tab; lia).
+        rewrite Gu by assumption.
+        transitivity (sumn D (fun c => (U' i c *! wt CF F emb S c) *! delta CF c (nth a K 0))).
+        * transitivity (sumn (nc A) (fun j => sumn D (fun c => (U' i c *! wt CF F emb S c) *! (V' c j *! cj (V' (nth a K 0) j))))).
+          { apply sumn_ext. intros j Hj. rewrite get_adjmx by (unfold rowsel, colsel; rewrite ?nr_tab, ?nc_tab; lia).
+            rewrite Gv by assumption. rewrite HA by assumption. rewrite <- sumn_scal_r. apply sumn_ext. intros c Hc. ring. }
+          rewrite sumn_exch. apply sumn_ext. intros c Hc. rewrite sumn_scal_l.
+          rewrite (HVo c (nth a K 0) Hc (Klt a Ha)). reflexivity.
+        * unfold delta.
+          rewrite (sumn_delta_r CF D (nth a K 0) (fun c => U' i c *! wt CF F emb S c)) by (apply Klt; exact Ha).
           rewrite (wt_cof F) by (rewrite HlenS; apply Klt; exact Ha).
           rewrite (nth_map_lt _ _ _ 0) by exact Ha. reflexivity.
   Qed.
